@@ -73,6 +73,19 @@ class Stats:
                     mine.append(x)
 
 
+def interleave(units: list, keyfn) -> list:
+    """Proportional round-robin over the groups keyfn defines, so that a wall-clock cap leaves every kind of unit covered."""
+    groups: dict = {}
+    for u in units:
+        groups.setdefault(keyfn(u), []).append(u)
+    keyed = []
+    for gi, g in enumerate(groups.values()):
+        for i, u in enumerate(g):
+            keyed.append(((i + 0.5) / len(g), gi, u))
+    keyed.sort(key=lambda x: (x[0], x[1]))
+    return [u for _, _, u in keyed]
+
+
 def _worker_entry(modname, unit):
     faulthandler.enable()
     faulthandler.dump_traceback_later(600, exit=True)
